@@ -47,7 +47,7 @@ if sc is None:
 ck.log("harness and staticcheck built")
 work = ck.mkscratch()
 res = os.path.join(work, "out.json")
-n, ncli = (40000, 400) if ck.thorough() else (1500, 45)
+n, ncli = (20000, 300) if ck.thorough() else (1500, 45)
 rc, out = sh([exe, "-work", work, "-out", res, "-seed", str(ck.seed), "-n", str(n), "-cli", str(ncli), "-staticcheck", sc], timeout=3000)
 if rc != 0:
     ck.violation("harness-run", "harness run failed: " + out[-500:], {"log": out[-3000:]}, no_input=True)
